@@ -109,7 +109,7 @@ async def _run(script, obs):
             dt = t / 1000 - loop.time()
             if dt > 0:
                 await asyncio.sleep(dt)
-            if reader.at_eof() or reader.exception() is not None:
+            if reader._eof or reader.exception() is not None:
                 continue
             if what == "eof":
                 reader.feed_eof()
@@ -183,7 +183,10 @@ def run_impl(script):
     try:
         vrun(_run(script, obs), horizon=3600.0)
     except Stall:
+        # the pending call never returns; the loop has been torn down (tasks cancelled, which closes the connection),
+        # so the queue and the closed flag can no longer be observed
         _snapshot(obs)
+        obs["q"], obs["closed"] = None, None
         client = "waiting" if obs.get("pending") else "idle"
     except Exception as e:  # noqa: BLE001
         _snapshot(obs)
@@ -280,6 +283,8 @@ def judge(script, impl, model):
 
 
 def _judge(script, a, b):
+    if a["q"] is None:
+        b = dict(b, q=None, closed=None)
     if a == b:
         return None
     src, tgt, _ver = script["cfg"]
@@ -330,7 +335,7 @@ def _judge(script, a, b):
         return ("reader-order", bool(unanswered), f"reader task did {a['tr']}, model {b['tr']}")
     if a["out"] != b["out"]:
         return ("write-times", False, f"written {a['out']}, model {b['out']}")
-    if a["q"] != b["q"]:
+    if a["q"] is not None and a["q"] != b["q"]:
         if sorted(a["q"]) != sorted(b["q"]):
             viol = a["closed"] == 0 and b["closed"] == 0
             return ("queue-lost", bool(viol), f"queue at the end {a['q']}, expected {b['q']}")
